@@ -36,7 +36,7 @@ SPEC = {
     "trusted": ["h2 4.4.1 / hpack / hyperframe / priority 2.0.0 / h11 0.16 / wsproto as libraries (LibWf sampled by taps)",
                 "hyperframe + hpack as the harness's own frame writer and tolerant output parser; h11 in server role as the oracle for 'malformed HTTP/1 with hint h'"],
     "partial": ["F44 (RecursionError from next(priority) on a ~1000 deep PRIORITY dependency chain): total_h2 holds only as total_h2_partial, negation witness total_h2_fails_as_is; listed in known_findings.json",
-                "F43 (h2c upgrade with an undecodable HTTP2-Settings header): monitors only, listed in known_findings.json",
+                "the h2c upgrade path is monitored here, not modelled: F43 (an HTTP2-Settings value h2 refuses raised out of the handler after the 101) is repaired (2e1c011: GOAWAY + Closed); its corpus entries stay as ordinary cases, the refusal itself is C13's theorem h2c_served_iff_settings_accepted / h2c_refused_source",
                 "total_h1 / total_ws are theorems about one-op-at-a-time models: the awaits INSIDE one op (e.g. the reader handling WebSocket bytes while the application's own 500 / accept is suspended in a write) are not interleavings of the model; they are covered by the end-to-end monitors on both workers only (F40 and F45 were such windows)",
                 "h11's body-framing checks (too much / too little data for a declared Content-Length) are outside the state machine H11M: they raise LocalProtocolError into the application's send only (no reader-side send declares a length it does not keep)"],
     "assumptions": ["HTTP/1: one op of HC.Proto.H11 (the handling of one next_event() result, one app_send, handle(Closed)) is atomic; no application step between a Request carrying Expect: 100-continue and the 100 Continue sent at the top of the reader's next iteration (there is no suspension point in between; `sched`)",
@@ -578,6 +578,8 @@ def corpus() -> List[dict]:
     h1case("F41_host_not_utf8_server_names", [b"GET / HTTP/1.1\r\nhost: \xff\r\n\r\n"], cfg={"server_names": ["x"]})
     h1case("F43_h2c_settings_not_utf8", [b"GET / HTTP/1.1\r\nhost: x\r\nupgrade: h2c\r\nhttp2-settings: \xff\xfe\r\n\r\n"])
     h1case("F43_h2c_settings_short", [b"GET / HTTP/1.1\r\nhost: x\r\nupgrade: h2c\r\nhttp2-settings: AAAA\r\n\r\n"])
+    h1case("F43_h2c_settings_bad_padding", [b"GET / HTTP/1.1\r\nhost: x\r\nupgrade: h2c\r\nhttp2-settings: AAMAAABkAAQAAP\r\n\r\n"])
+    h1case("F43_h2c_settings_value_out_of_range", [b"GET / HTTP/1.1\r\nhost: x\r\nupgrade: h2c\r\nhttp2-settings: AAUAAAAA\r\n\r\n", b"PRI * HTTP/2.0\r\n\r\nSM\r\n\r\n"])
     out.append({**h2c_opening(None, "unknown_server_name", "", "none"), "family": "corpus", "name": "F82_h2c_unknown_server_name_deadlock", "bounded": True})
     out.append({**h2c_opening(None, "invalid_ws_handshake", "", "later_read"), "family": "corpus", "name": "F82_h2c_invalid_ws_handshake_deadlock", "bounded": True})
     h1case("h1_malformed_request_line", [b"GET\r\n\r\n"])
